@@ -143,7 +143,12 @@ func (f *FieldCopyToGenerator) genZeroValue(fieldName string) func(*j.Group) {
 
 		// v.Null = v.Value == ""
 		if f.ZeroValue != "" {
-			g.Id("v.Null").Op("=").Id(f.i.WithType(f.ValueCastToType)).Parens(j.Id(fieldName)).Op("==").Id(f.ZeroValue)
+			isZero := j.Id(f.i.WithType(f.ValueCastToType)).Parens(j.Id(fieldName)).Op("==").Id(f.ZeroValue)
+			if f.ParentIsOptionalEmbed && f.Kind == PrimitiveKind {
+				// The field is promoted from a nullable embedded message: it can not be read if the message is nil.
+				isZero = j.Id("obj." + f.ParentIsOptionalEmbedFieldName).Op("==").Nil().Op("||").Add(isZero)
+			}
+			g.Id("v.Null").Op("=").Add(isZero)
 		} else {
 			g.Id("v.Null").Op("=").False()
 		}
